@@ -25,8 +25,7 @@ def ob_hub_update(nd):
             msg = W.msg('UpdateGlobalIndex', airdrop_hooks=hooks)
             for sender in (W.updater, W.registry):
                 n = 0
-                st0 = W.st.clone()
-                W2 = W
+                raw_scenario(W, 'execute', msg, sender, querier=hub_querier_template(W))
                 for st, res in W.execute(msg, sender):
                     if not is_ok(res):
                         ctx.infeasible(st, 'UpdateGlobalIndex from the updater / registry executes', 'hub_update:fails', W.mv)
@@ -72,7 +71,9 @@ def ob_bond_rewards(ctx):
     W.install()
     I = W.I
     n = 0
-    for st, res in start_op(W, 'bond_rewards'):
+    W.amount = W.iv('amount', 0, CAP)
+    raw_scenario(W, 'execute', W.msg('BondRewards'), W.dispatcher, [W.mk.coin(W.amount, W.denom)], querier=hub_querier_template(W))
+    for st, res in start_op(W, 'bond_rewards', amount=W.amount):
         if not is_ok(res):
             continue
         n += 1
@@ -247,4 +248,74 @@ def ORACLE(v, scn, out):
         return []
     if key.endswith('fails'):
         return [] if 'ok' in res else ['step failed: ' + str(res)[:200]]
+    if key.startswith('hub_update:') or key.startswith('bond_rewards:'):
+        if 'ok' not in res:
+            return []
+        from checks.c01 import decode_hub, atoms
+        pre, post = decode_hub(scn['storage']), decode_hub(out.get('storage', []))
+        s0, s1 = pre['items'][b'\x00\x05state'], post['items'][b'\x00\x05state']
+        msgs = [sm['msg'] for sm in res['ok']['messages']]
+        what = key.split(':')[1]
+        bad = []
+        toks = ('bsei_token', 'stsei_token')
+        minted = [m for m in msgs if 'wasm' in m and m['wasm']['execute']['contract_addr'] in toks]
+        if key.startswith('hub_update:'):
+            hooks = scn['msg']['update_global_index'].get('airdrop_hooks') or []
+            dels = scn['querier']['delegations']
+            k0 = 1 if hooks else 0 if not hooks else len(hooks)
+            k0 = len(hooks)
+            wd = msgs[k0:k0 + len(dels)]
+            shape = len(msgs) == k0 + len(dels) + 2
+            if what == 'shape' and not shape:
+                bad.append('%d messages for %d hooks and %d delegations' % (len(msgs), k0, len(dels)))
+            if shape:
+                okw = all('distribution' in m and 'withdraw_delegator_reward' in m['distribution'] for m in wd)
+                if what == 'withdraw_all' and not okw:
+                    bad.append('reward withdrawals missing: %r' % wd)
+                if what == 'validator' and okw and [m['distribution']['withdraw_delegator_reward']['validator'] for m in wd] != [d['validator'] for d in dels]:
+                    bad.append('withdrawals name other validators')
+                sw, dp = msgs[-2], msgs[-1]
+                oksd = all('wasm' in m for m in (sw, dp)) and 'swap_to_reward_denom' in sw['wasm']['execute']['msg'] and 'dispatch_rewards' in dp['wasm']['execute']['msg']
+                if what == 'swap_dispatch' and not oksd:
+                    bad.append('swap / dispatch calls missing')
+                if oksd:
+                    if what == 'target' and not (sw['wasm']['execute']['contract_addr'] == dp['wasm']['execute']['contract_addr'] == 'dispatcher_contract'):
+                        bad.append('swap / dispatch not sent to the dispatcher')
+                    body = sw['wasm']['execute']['msg']['swap_to_reward_denom']
+                    if what == 'totals' and (body['bsei_total_bonded'] != s0['total_bond_bsei_amount'] or body['stsei_total_bonded'] != s0['total_bond_stsei_amount']):
+                        bad.append('split requested with %r, booked %s / %s' % (body, s0['total_bond_bsei_amount'], s0['total_bond_stsei_amount']))
+            if what == 'liquid' and any('bank' in m or 'staking' in m for m in msgs):
+                bad.append('bank / staking message emitted')
+            if what == 'frame':
+                ch = [k for k in s0 if s0[k] != s1.get(k) and k != 'last_index_modification']
+                others = [k for k in set(pre['items']) | set(post['items']) if k != b'\x00\x05state' and pre['items'].get(k) != post['items'].get(k)]
+                if ch or others or pre['hist'] != post['hist'] or pre['wait'] != post['wait']:
+                    bad.append('state changed beyond last_index_modification: %r %r' % (ch, others))
+            if what == 'time' and int(s1['last_index_modification']) != int(scn['env']['time']):
+                bad.append('update time not recorded')
+            if what == 'supply' and minted:
+                bad.append('token message emitted')
+            return bad
+        amt = int(scn['info']['funds'][0]['amount']) if scn['info']['funds'] else 0
+        Bs0, Bs1, Bb0, Bb1 = (int(s0['total_bond_stsei_amount']), int(s1['total_bond_stsei_amount']), int(s0['total_bond_bsei_amount']), int(s1['total_bond_bsei_amount']))
+        D = sum(int(d['amount']) for d in scn['querier']['delegations'])
+        slashed = D < Bb0 + Bs0
+        deleg = sum(int(m['staking']['delegate']['amount']['amount']) for m in msgs if 'staking' in m and 'delegate' in m['staking'])
+        if what == 'nomint' and minted:
+            bad.append('token message emitted by BondRewards')
+        if what == 'delegated' and deleg != amt:
+            bad.append('delegated %d of %d received' % (deleg, amt))
+        if what == 'reserve' and s1['prev_hub_balance'] != s0['prev_hub_balance']:
+            bad.append('prev_hub_balance changed')
+        if not slashed:
+            if what == 'pool' and Bs1 != Bs0 + amt:
+                bad.append('stSei pool %d -> %d for %d re-bonded' % (Bs0, Bs1, amt))
+            if what in ('bsei_pool', 'bsei_rate') and (Bb1 != Bb0 or (what == 'bsei_rate' and False)):
+                bad.append('bSei pool changed %d -> %d' % (Bb0, Bb1))
+            cs = int(scn['querier']['supplies'][1]['supply']) + int(pre['items'][b'\x00\x0dcurrent_batch']['requested_stsei'])
+            if what == 'rate' and cs > 0 and atoms(s1['stsei_exchange_rate']) != (Bs1 * E // cs if Bs1 else E):
+                bad.append('stSei rate %s != pool/claims' % s1['stsei_exchange_rate'])
+            if what == 'raise' and cs > 0 and Bs0 >= 1 and Bs1 * E // cs < Bs0 * E // cs:
+                bad.append('stSei rate fell')
+        return bad
     return None
